@@ -3,6 +3,8 @@
 This module defines a class for a rectangular bounding box.
 """
 
+import operator
+
 import numpy as np
 from astropy.io.fits.util import _is_int
 
@@ -189,6 +191,10 @@ class RegionBoundingBox:
         """
         if len(shape) != 2:
             raise ValueError('input shape must have 2 elements.')
+
+        # numpy integer scalars are converted to Python integers so that
+        # the slice arithmetic below cannot wrap around
+        shape = (operator.index(shape[0]), operator.index(shape[1]))
 
         xmin = self.ixmin
         xmax = self.ixmax
